@@ -109,7 +109,8 @@ def configs() -> list[Cfg]:
 
 
 def flavours() -> dict[str, dict]:
-    meta = {'name': 'a', 'namespace': 'ns', 'uid': 'u1', 'annotations': {'user/data': 'ü', 'plain': 'v'}}
+    meta = {'name': 'a', 'namespace': 'ns', 'uid': 'u1', 'annotations': {'user/data': 'ü', 'plain': 'v', 'kopf.zalando.org.uk/region': 'eu', 'my-op.example.com.au/r': 'au',
+                                                                'multi.example.community/x': 'y'}}
     return {
         'plain': {'apiVersion': 'kopf.dev/v1', 'kind': 'KopfExample', 'metadata': copy.deepcopy(meta), 'spec': {'x': 1}},
         'replicaset-of-deployment': {'apiVersion': 'apps/v1', 'kind': 'ReplicaSet',
